@@ -973,7 +973,10 @@ func (a *Authenticator) validateTokenAndDeriveKeys(authData *TokenAuthData, nego
 		return fmt.Errorf("token validation failed: %w", err)
 	}
 
-	// Extract subject from claims
+	// Extract subject from claims. The identity comes from the signed token only: forget the
+	// id the client claimed in step 1 first, so that a token without a "sub" claim is rejected
+	// below instead of authenticating under whatever name the client sent.
+	authData.ClientID = ""
 	if sub, ok := claims["sub"]; ok {
 		if subStr, ok := sub.(string); ok {
 			authData.ClientID = subStr
